@@ -307,10 +307,8 @@ func patternsC15(c *Ctx) {
 				}
 				for i, name := range vs.Names {
 					if p.Info.Defs[name] == g && i < len(vs.Values) {
-						if call, ok := vs.Values[i].(*ast.CallExpr); ok && len(call.Args) == 1 {
-							if tv := p.Info.Types[call.Args[0]]; tv.Value != nil {
-								pat = constant.StringVal(tv.Value)
-							}
+						if call, ok := vs.Values[i].(*ast.CallExpr); ok {
+							pat = p.compiledPatternText(call, map[types.Object]string{}, 0)
 						}
 					}
 				}
@@ -501,4 +499,92 @@ func matchIndexOK(v ssa.Value, depth int) bool {
 	}
 	k := matchIndexConst(v)
 	return k == 2 || k == 3
+}
+
+// compiledPatternText returns the constant text handed to regexp.MustCompile /
+// regexp.Compile by call — directly, or inside an in-package helper that
+// builds the text from its (constant) arguments; "" when it is not constant.
+func (p *Program) compiledPatternText(call *ast.CallExpr, env map[types.Object]string, depth int) string {
+	if depth > 3 {
+		return ""
+	}
+	callee, _ := typeutil.Callee(p.Info, call).(*types.Func)
+	if callee == nil {
+		return ""
+	}
+	var evalStr func(e ast.Expr) (string, bool)
+	evalStr = func(e ast.Expr) (string, bool) {
+		e = ast.Unparen(e)
+		if tv := p.Info.Types[e]; tv.Value != nil && tv.Value.Kind() == constant.String {
+			return constant.StringVal(tv.Value), true
+		}
+		switch x := e.(type) {
+		case *ast.Ident:
+			if v, ok := env[p.Info.ObjectOf(x)]; ok {
+				return v, true
+			}
+		case *ast.BinaryExpr:
+			if x.Op.String() == "+" {
+				a, ok1 := evalStr(x.X)
+				b, ok2 := evalStr(x.Y)
+				if ok1 && ok2 {
+					return a + b, true
+				}
+			}
+		}
+		return "", false
+	}
+	if callee.Pkg() != nil && callee.Pkg().Path() == "regexp" && (callee.Name() == "MustCompile" || callee.Name() == "Compile") && len(call.Args) == 1 {
+		if s, ok := evalStr(call.Args[0]); ok {
+			return s
+		}
+		return ""
+	}
+	fd := p.FuncDecls[callee]
+	if callee.Pkg() != p.Types || fd == nil || fd.Body == nil || fd.Type.Params == nil {
+		return ""
+	}
+	// bind the helper's parameters to the constant arguments
+	inner := map[types.Object]string{}
+	i := 0
+	for _, f := range fd.Type.Params.List {
+		for _, n := range f.Names {
+			if i < len(call.Args) {
+				if s, ok := evalStr(call.Args[i]); ok {
+					inner[p.Info.Defs[n]] = s
+				}
+			}
+			i++
+		}
+	}
+	// locals assigned once from constant expressions
+	for pass := 0; pass < 3; pass++ {
+		ast.Inspect(fd.Body, func(n ast.Node) bool {
+			as, ok := n.(*ast.AssignStmt)
+			if !ok || len(as.Lhs) != 1 || len(as.Rhs) != 1 {
+				return true
+			}
+			if id, ok := as.Lhs[0].(*ast.Ident); ok {
+				saved := env
+				env = inner
+				if s, ok := evalStr(as.Rhs[0]); ok {
+					inner[p.Info.ObjectOf(id)] = s
+				}
+				env = saved
+			}
+			return true
+		})
+	}
+	out := ""
+	ast.Inspect(fd.Body, func(n ast.Node) bool {
+		c2, ok := n.(*ast.CallExpr)
+		if !ok || out != "" {
+			return true
+		}
+		if s := p.compiledPatternText(c2, inner, depth+1); s != "" {
+			out = s
+		}
+		return true
+	})
+	return out
 }
